@@ -762,12 +762,15 @@ def run_auth_impl(world, ops):
     for op in ops:
         k = op[0]
         try:
+            # registration options must not matter for where a provider applies: no caching, default caching, keyed
+            opts = [{}, {"refresh_interval": None}, {"cache_by_key": lambda case, ctx: "k"}][len(handles) % 3]
             if k == "register":
-                handles.append(stores[op[1]].register() if len(handles) % 2 else stores[op[1]]())
+                handles.append(stores[op[1]].register(**opts) if len(handles) % 2 else stores[op[1]](**opts))
                 kinds.append("register")
                 outs.append({"handle": len(handles) - 1})
             elif k == "apply":
-                handles.append(stores[op[1]].apply(classes[op[2]]) if len(handles) % 2 else stores[op[1]](classes[op[2]]))
+                handles.append(stores[op[1]].apply(classes[op[2]], **opts) if len(handles) % 2
+                               else stores[op[1]](classes[op[2]], **opts))
                 kinds.append("apply")
                 outs.append({"handle": len(handles) - 1})
             elif k == "setFromRequests":
